@@ -716,20 +716,35 @@ func TestVF_C37_Forward(t *testing.T) {
 			var g c37Gen
 			mode := rapid.IntRange(0, 5).Draw(t, "qmode")
 			switch {
-			case i > 0 && mode == 0: // same first 512 bytes as an earlier query, different tail (decision cache key)
-				prev := strings.TrimSpace(queries[rapid.IntRange(0, i-1).Draw(t, "prev")])
+			case len(queries) > 0 && mode == 0: // same first 512 bytes as an earlier query, different tail (decision cache key)
+				prev := strings.TrimSpace(queries[rapid.IntRange(0, len(queries)-1).Draw(t, "prev")])
 				if len(prev) < 520 {
 					prev = prev + strings.Repeat(" ", 520-len(prev))
 				}
 				tail := rapid.SampledFrom([]string{" join secret s within 10m last 1h", " join payments p within 10m last 1h", " limit 3", " left join audit_log x on a._key = x._key within 10m last 1h"}).Draw(t, "tail")
 				g = c37Gen{Text: strings.TrimSuffix(strings.TrimSpace(prev[:520]), ";") + tail, Kind: "same-prefix"}
-			case i > 0 && mode == 1: // exact repeat / whitespace + case variant (cache hit)
-				prev := queries[rapid.IntRange(0, i-1).Draw(t, "prev2")]
+			case len(queries) > 0 && mode == 1: // exact repeat / whitespace + case variant (cache hit)
+				prev := queries[rapid.IntRange(0, len(queries)-1).Draw(t, "prev2")]
 				g = c37Gen{Text: prev, Kind: "repeat"}
 				if rapid.Bool().Draw(t, "variant") {
 					g.Text = strings.ReplaceAll(prev, " ", "  ")
 					g.Kind = "repeat-ws"
 				}
+			case len(queries) > 0 && mode == 2: // longest possible common prefix: only the last topic name differs
+				prev := queries[rapid.IntRange(0, len(queries)-1).Draw(t, "prev3")]
+				lp := strings.ToLower(prev)
+				at, tl := -1, 0
+				for _, tp := range append([]string{"nosuch"}, c37Topics...) {
+					if i := strings.LastIndex(lp, tp); i > at {
+						at, tl = i, len(tp)
+					}
+				}
+				if at < 0 {
+					g = c37GenQuery(t)
+					break
+				}
+				other := rapid.SampledFrom(c37Topics).Draw(t, "other")
+				g = c37Gen{Text: prev[:at] + other + prev[at+tl:], Kind: "swap-last-topic"}
 			default:
 				g = c37GenQuery(t)
 			}
